@@ -27,6 +27,11 @@ package main
 // the observation "returned / did not return within the bound" has been made, so that nothing of a
 // stuck session outlives its case.
 //
+// companion = 2: two further sessions on the same handler run for as long as the session under test
+// lasts, one sending REQ/CLOSE for one subscription id over and over (each CLOSE empties its
+// subscription set), one publishing events, both reading whatever they are sent (up to 4000 messages
+// each); they are cancelled after the session under test has ended and must end as well.
+//
 // Nothing that depends on timing is written out except these yes/no observations; the bounds are
 // generous (3 s to return, 1 s of retries before a goroutine counts as leaked, send timeout + 2.5 s for the drop).
 
@@ -398,7 +403,7 @@ func c13RunSession(c *c13Case) {
 	// the stalled companion session
 	var ccancel context.CancelFunc
 	var cdone chan struct{}
-	if c.Companion > 0 {
+	if c.Companion == 1 {
 		var cctx context.Context
 		cctx, ccancel = context.WithCancel(context.Background())
 		defer ccancel()
@@ -431,6 +436,60 @@ func c13RunSession(c *c13Case) {
 			}
 		}
 		t.Stop()
+	}
+
+	// Companion == 2: two busy neighbours on the same handler for as long as this session lasts, one
+	// opening and closing a subscription over and over, one publishing; both read everything they are sent
+	var churnCancel context.CancelFunc
+	var churnDone []chan struct{}
+	if c.Companion == 2 {
+		var chctx context.Context
+		chctx, churnCancel = context.WithCancel(context.Background())
+		defer churnCancel()
+		for role := 0; role < 2; role++ {
+			hrecv := make(chan mocrelay.ClientMsg)
+			hsend := make(chan mocrelay.ServerMsg)
+			hdone := make(chan struct{})
+			fdone := make(chan struct{})
+			churnDone = append(churnDone, hdone, fdone)
+			go func() {
+				defer close(hdone)
+				defer func() { recover() }()
+				b.h.ServeNostr(chctx, hsend, hrecv)
+			}()
+			go func() { // reader
+				for {
+					select {
+					case <-hsend:
+					case <-hdone:
+						return
+					}
+				}
+			}()
+			go func(role int) { // feeder
+				defer close(fdone)
+				for i := 0; i < 4000; i++ {
+					var m mocrelay.ClientMsg
+					switch {
+					case role == 0 && i%2 == 0:
+						m = &mocrelay.ClientReqMsg{SubscriptionID: "churn", ReqFilters: []*mocrelay.ReqFilter{{}}}
+					case role == 0:
+						m = &mocrelay.ClientCloseMsg{SubscriptionID: "churn"}
+					default:
+						e := common.JEvent{ID: "churn" + fmt.Sprint(i%4), PK: "pa", TS: int64(i % 4), Kind: 1, Tags: [][]string{}}
+						m = &mocrelay.ClientEventMsg{Event: e.ToEvent()}
+					}
+					select {
+					case hrecv <- m:
+					case <-chctx.Done():
+						return
+					case <-hdone:
+						return
+					}
+				}
+				<-chctx.Done()
+			}(role)
+		}
 	}
 
 	stall := c.Peer == "stall"
@@ -480,7 +539,21 @@ func c13RunSession(c *c13Case) {
 		b.unlock()
 	}
 	c.Obs.Panic = panicked
-	if c.Companion > 0 {
+	if c.Companion == 2 {
+		// the neighbours worked while this session ended; now they are cancelled and must end too
+		time.Sleep(5 * time.Millisecond)
+		churnCancel()
+		t := time.NewTimer(c13ReturnBound)
+		for _, d := range churnDone {
+			select {
+			case <-d:
+			case <-t.C:
+				c.Obs.Returned = false
+			}
+		}
+		t.Stop()
+	}
+	if c.Companion == 1 {
 		ccancel()
 		t := time.NewTimer(c13ReturnBound)
 		select {
@@ -673,6 +746,10 @@ func c13GenSession(r *common.Rand, idx int) c13Case {
 		c.End, c.Peer = common.Pick(r, []string{"cancel", "close"}), "drain"
 	} else if r.Chance(5) {
 		c13GenBusy(r, &c)
+	} else if r.Chance(7) {
+		// two busy neighbours (one opening and closing a subscription, one publishing) on a composition with a router
+		c.Comp = common.Pick(r, []int{2, 4, 5, 6, 7, 8})
+		c.Companion = 2
 	}
 	return c
 }
